@@ -87,8 +87,7 @@ Definition hint_ok (R : list (V * Z)) (h : (V * V) * Z) : bool :=
   else false.
 (* (vm_compute is call-by-value: the nested [if]s, not [&&], keep the cost test lazy) *)
 Definition grow (R : list (V * Z)) (h : (V * V) * Z) : list (V * Z) :=
-  let vl := (fst (fst h), snd h) in
-  if existsb (eqVL vl) R then R else if hint_ok R h then vl :: R else R.
+  if hint_ok R h then (fst (fst h), snd h) :: R else R.
 Definition seeds0 : list (V * Z) :=
   map (fun s => (s, lab s)) (filter (fun s => (0 <? lab s) && mask s) verts).
 Definition chain_set (hint : list ((V * V) * Z)) : list (V * Z) := fold_left grow hint seeds0.
